@@ -22,6 +22,7 @@
 #include <poll.h>
 #include <linux/sockios.h>
 #include <csignal>
+#include "watchdog.h"
 using namespace hsim;
 using namespace photon::net;
 
@@ -136,14 +137,15 @@ static void exec_op(Script& me, const std::vector<std::string>& op) {
     else if (k == "close") { emit("close %s %s @%lu", me.name.c_str(), ep.c_str(), (unsigned long)vnow); delete e.s; e.s = nullptr; }
 }
 static void* run_script(void* arg) { auto& s = *(Script*)arg; for (auto& op : s.ops) exec_op(s, op); emit("end %s", s.name.c_str()); done_sem->signal(1); return nullptr; }
-static void on_alarm(int) { emit("result hung"); flush_trace(); _exit(0); }
+// the program has N s in which the machine runs it (watchdog.h): spinning or blocked in the kernel after that = hung
+static void on_verdict(const char* result) { trace += wd::g_diag; emit("%s", result); flush_trace(); _exit(0); }
 static void on_segv(int sg) { emit("result crashed signal=%d", sg); flush_trace(); _exit(0); }
 
 struct ConnSpec { std::string id, kind; int snd, rcv; };
 static ISocketStream* accepted = nullptr;
 
 static int run_program(const std::vector<std::string>& lines) {
-    signal(SIGALRM, on_alarm); alarm(60); signal(SIGSEGV, on_segv); signal(SIGABRT, on_segv); signal(SIGPIPE, SIG_IGN);
+    wd::start(nullptr, on_verdict, 60, 1); signal(SIGSEGV, on_segv); signal(SIGABRT, on_segv); signal(SIGPIPE, SIG_IGN);
     std::string eng = "epoll", sk = "plain"; std::vector<ConnSpec> conns;
     for (auto& l : lines) {
         std::istringstream is(l); std::string w; is >> w;
